@@ -1,7 +1,7 @@
 """C18 - status normalisation is total and reports success only for success.
 
 Exhaustive over both 8-bit legacy families (defined and undefined codes), every defined
-unified status, and seeded undefined 32-bit samples.  The oracle is the fixed numeric
+unified status, every undefined unified value below 0x20000 and seeded undefined 32-bit samples.  The oracle is the fixed numeric
 table in rtmon.contracts (values from sl_status.h / EmberStatus, not from the tree).
 The same postcondition is installed as an icontract in the workloads of C06..C19.
 """
@@ -26,12 +26,12 @@ ASSUMPTIONS = [
     "bellows.types exposes EmberStatus, EzspStatus, sl_Status and sl_Status.from_ember_status",
 ]
 EXHAUSTIVE = {
-    "quick": "all 256 EmberStatus values, all 256 EzspStatus values, all defined sl_Status members",
-    "thorough": "all 256 EmberStatus values, all 256 EzspStatus values, all defined sl_Status members",
+    "quick": "all 256 EmberStatus values, all 256 EzspStatus values, all defined sl_Status members, all undefined unified values below 0x20000",
+    "thorough": "all 256 EmberStatus values, all 256 EzspStatus values, all defined sl_Status members, all undefined unified values below 0x20000",
 }
 REACH = {
     t: ["ember_256", "ezsp_256", "unified_all", "undefined_ember", "undefined_ezsp",
-        "undefined_unified", "contract_path"]
+        "undefined_unified", "undefined_unified_8bit", "contract_path"]
     for t in ("quick", "thorough")
 }
 
@@ -79,10 +79,15 @@ def run_shard(desc) -> Acc:
     acc.hit("unified_all")
     rnd = random.Random(desc["seed"])
     defined = {int(m) for m in t.sl_Status.__members__.values()}
-    for _ in range(desc["n32"]):
-        v = rnd.getrandbits(32)
+    # every undefined value of the low 17 bits (all the numbers a legacy 8-bit code could be
+    # mistaken for live here), then structured and uniformly random 32-bit values
+    structured = [(hi << sh) | lo for lo in range(256) for hi in (1, 0x0C, 0x80, 0xFF, 0xFFFFFF) for sh in (8, 16, 24)]
+    for v in list(range(0x20000)) + structured + [rnd.getrandbits(32) for _ in range(desc["n32"])]:
+        v &= 0xFFFFFFFF
         if v in defined:
             continue
+        if v < 256:
+            acc.hit("undefined_unified_8bit")
         acc.hit("undefined_unified")
         _one(acc, t, "sl_Status", t.sl_Status(v), {"family": "sl_Status", "value": v})
     # the same postcondition through the icontract wrapper used by the other workloads
